@@ -886,8 +886,13 @@ impl<'a, F: Float, K: 'a + Permutable<F>> SolverState<'a, F, K> {
         let sep_hyperplane = if self.kernel.inner().is_linear() {
             let mut tmp = Array1::zeros(self.dataset.len_of(Axis(1)));
 
+            // labels in sample order (self.targets is permuted by shrinking)
+            let mut sample_targets = vec![F::one(); self.ntotal()];
+            for i in 0..self.ntotal() {
+                sample_targets[self.active_set[i]] = self.target(i);
+            }
             for (i, elm) in self.dataset.outer_iter().enumerate() {
-                tmp.scaled_add(self.target(i) * alpha[i], &elm);
+                tmp.scaled_add(sample_targets[i] * alpha[i], &elm);
             }
 
             SeparatingHyperplane::Linear(tmp)
